@@ -264,6 +264,24 @@ class C16(Prop):
                                         cq_list([cq_list([self.coq_obs(t) for t in p]) for p in o["res"]]), cq_bool(o["done"]))
         return "(OSeq %s)" % cq_list([self.coq_obs(t) for t in o["obs"]])
 
+    def collision_probability(self, cap, n):
+        """probability that two independent runs of Algorithm R end with identical slot contents,
+        by enumerating the choice sequences (None if there are too many)"""
+        total = 1
+        for idx in range(cap, n):
+            total *= idx + 1
+        if total > 200000:
+            return None
+        outcomes = {tuple(range(cap)): 1}
+        for idx in range(cap, n):
+            nxt = {}
+            for slots, w in outcomes.items():
+                for j in range(idx + 1):
+                    s2 = slots if j >= cap else slots[:j] + (idx,) + slots[j + 1:]
+                    nxt[s2] = nxt.get(s2, 0) + w
+            outcomes = nxt
+        return sum(w * w for w in outcomes.values()) / float(total * total)
+
     # ------------------------------------------------------------------ the real RNG path
     def extra_checks(self, ctx):
         """free-running trials (no script installed: fastrand falls through to the thread-local
@@ -288,6 +306,38 @@ class C16(Prop):
                              "or a drain reported a wrong length/sample rate (%d anomalies)" % (worst, bad),
                              dict(cap=cap, n=n, trials=trials, counts=counts, expected=trials * p, anomalies=bad)))
         ctx["coverage"]["free_running_trials"] = rows
+        # the same on FRESH threads (one trial per spawned thread): the thread-local RNG must be seeded
+        # independently per thread.  Per-position frequency within 6 sigma of cap/n, and the fraction of
+        # consecutive trials with identical slot contents must be the collision probability of two
+        # independent trials (computed by enumerating the choice sequences), not ~1.
+        ftrials = 3000 if ctx["tier"] == "quick" else 30000
+        fconfs = [(2, 6), (3, 7), (4, 16)]
+        rc, outs, err = run_impl(ctx["binpath"], ["F %d %d %d |" % (cap, n, ftrials) for cap, n in fconfs], timeout=900)
+        frows = []
+        if rc != 0 or len(outs) != len(fconfs):
+            viol.append(("stat", "fresh-thread trials did not run: rc=%s %s" % (rc, err[-500:]), dict(no_failing_input=True)))
+        else:
+            for (cap, n), line in zip(fconfs, outs):
+                toks = line.split()
+                bad, same, counts = int(toks[1]), int(toks[2]), [int(x) for x in toks[3:]]
+                p = cap / n
+                sigma = (ftrials * p * (1 - p)) ** 0.5
+                worst = max(abs(c - ftrials * p) / sigma for c in counts)
+                pc = self.collision_probability(cap, n)
+                pairs = ftrials - 1
+                if pc is None:
+                    coll_ok, pc_txt = same <= 0.2 * pairs, "<=0.2"
+                else:
+                    coll_ok = abs(same - pairs * pc) <= 6 * (pairs * pc * (1 - pc)) ** 0.5 + 3
+                    pc_txt = round(pc, 5)
+                frows.append(dict(cap=cap, n=n, trials=ftrials, anomalies=bad, worst_sigma=round(worst, 2),
+                                  identical_consecutive=same, expected_collision_probability=pc_txt))
+                if bad or worst > 6 or not coll_ok:
+                    viol.append(("stat", "fresh-thread trials (one reservoir per spawned thread, real RNG): position frequencies deviate from "
+                                 "cap/n by %.1f sigma, %d of %d consecutive trials had identical slot contents (expected probability %s), "
+                                 "%d anomalies: the per-thread generators are not independent or not uniform" % (worst, same, pairs, pc_txt, bad),
+                                 dict(cap=cap, n=n, trials=ftrials, counts=counts, expected=ftrials * p, identical_consecutive=same)))
+        ctx["coverage"]["fresh_thread_trials"] = frows
         # free-running stress: real threads, no scheduler callback, real RNG; pushers || a consumer that
         # keeps draining.  Judged in the driver: only what holds even inside the open late-push class
         # (never more than cap / len() values per drain, every yielded value was pushed at some time
